@@ -14,6 +14,7 @@ PARAM_NAMES = ['x', 'y', 'name', 'size', 'items', 'opts', 'pos', 'first_name',
                'max_n', 'kind', 'ref']
 ENUM_MEMBERS = ['red', 'green', 'blue', 'true', 'yes', 'on']
 SCALAR_T = ['int', 'str', 'float', 'bool', 'date', 'path', 'any']
+PARAM_ONLY_T = ['untyped']     # a required parameter without annotation
 
 TRICKY_STR = ['', 'a', 'abc', 'true', 'yes', 'null', '1', '1.5', '1e5', '~',
               'héllo', 'x y', ' lead', 'a: b', 'x #y', '- a', '[z', '{z',
@@ -128,6 +129,8 @@ def class_specs(draw, name, earlier, allow_hooks=True):
     params = []
     for n in names:
         t = draw(texprs(earlier))
+        if draw(st.integers(0, 11)) == 0:
+            t = 'untyped'
         d = None
         if draw(st.integers(0, 2)) == 0:
             if isinstance(t, str) and _scalar_default(t) is not None:
@@ -366,7 +369,7 @@ def values(draw, spec, t, depth=2):
         if t == 'path':
             return {'k': 'path', 'v': draw(st.sampled_from(
                 ['a/b', '/abs/x.txt', 'rel', '.', '../up', 'sp ace/é']))}
-        if t == 'any':
+        if t in ('any', 'untyped'):
             return draw(plain_data(1 if depth <= 1 else 2))
         raise AssertionError(t)
     k = t[0]
